@@ -453,8 +453,11 @@ decodechar(const char *src, uint_least32_t *chr, bool *hexoct, const char *desc,
 			++s;
 			assert(isxdigit(*s));
 			c = 0;
-			do c = c * 16 + (*s > '9' ? 10 + tolower(*s) - 'a' : *s - '0');
-			while (isxdigit(*++s));
+			do {
+				if (c > 0xfffffff)
+					error(loc, "%s contains a hexadecimal escape sequence out of range", desc);
+				c = c * 16 + (*s > '9' ? 10 + tolower(*s) - 'a' : *s - '0');
+			} while (isxdigit(*++s));
 			if (hexoct)
 				*hexoct = true;
 			break;
